@@ -113,6 +113,52 @@ def check(ctx):
                 if cross < 0:
                     ctx.violation("plots:not_in_angular_order", "returned vertices are not in angular (counter-clockwise) order", info)
                     break
+    # ---- histories on ONE constraint-list object: successive calls with other limits / values must each return the corners
+    #      of THEIR slice, and must leave the caller's list as it was (no axis-limit term may stick to it)
+    import coqfmt as cf
+    import gen
+    import pacti.utils.plots as P
+    from pacti.iocontract import Var
+    rng = random.Random(ctx.seed + 180)
+    nh = 40 if ctx.quick else 1500
+    reuse = {"calls": 0, "histories": 0}
+    for case in cases[:nh]:
+        vals0 = dict(case["vals"])
+        used = {v for lin, _ in case["cs"] for v in lin}
+        if case["x"] == case["y"] or case["x"] in vals0 or case["y"] in vals0 or any(v not in vals0 for v in used if v not in (case["x"], case["y"])):
+            continue
+        tl = gen.mktl(case["cs"])
+        before = cf.pts_of(tl)
+        reuse["histories"] += 1
+        steps = [(case["xl"], case["yl"]), ((case["xl"][0] - 2, case["xl"][1] + 3), (case["yl"][0] - 1, case["yl"][1] + 2)),
+                 ((case["xl"][0] + 1, case["xl"][1] + 4), case["yl"])]
+        for j, (xl, yl) in enumerate(steps):
+            sub = dict(case, xl=xl, yl=yl)
+            try:
+                xs, ys = P.constraints_to_vertices(tl, Var(case["x"]), Var(case["y"]), {Var(k): float(v) for k, v in case["vals"]},
+                                                   (float(xl[0]), float(xl[1])), (float(yl[0]), float(yl[1])))
+                got, err = [(F(float(a)), F(float(b))) for a, b in zip(xs, ys)], None
+            except Exception as e:  # noqa: BLE001
+                got, err = None, type(e).__name__
+            reuse["calls"] += 1
+            info = {"case": repr(sub), "call_number": j + 1, "earlier_limits": [list(map(list, st)) for st in steps[:j]], "result": None if got is None else [[float(a), float(b)] for a, b in got], "error": err}
+            if cf.pts_of(tl) != before:
+                ctx.violation("plots:operand_modified", "constraints_to_vertices changed the constraint list passed to it", info)
+                break
+            rows = slice_rows(sub)
+            corners = exact_corners(rows)
+            if not corners or any(a == 0 and b == 0 and k < 0 for a, b, k in rows):
+                if err != "ValueError":
+                    ctx.violation("plots:empty_slice_no_error", "empty slice did not raise ValueError (call on a re-used list)", info)
+                continue
+            if err is not None:
+                ctx.violation("plots:error_on_nonempty_slice", "a non-empty slice raised " + str(err) + " (call on a re-used list)", info)
+                continue
+            if any(not any(abs(p[0] - q[0]) <= tol and abs(p[1] - q[1]) <= tol for p in got) for q in corners) or \
+               any(not any(abs(p[0] - q[0]) <= tol and abs(p[1] - q[1]) <= tol for q in corners) for p in got):
+                ctx.violation("plots:history_dependent", "a later call on the same constraint list did not return the corners of its own slice", info)
+    ctx.notes["reuse_histories"] = reuse
+    ctx.count(reuse["calls"], reuse["histories"])
     ctx.sample({"case": repr(cases[0]), "result": recs[0]["result"], "error": recs[0]["error"]})
     ctx.assumptions += ["Qhull (HalfspaceIntersection) and the Chebyshev-centre / fallback LPs are oracles of the model: their answers "
                         "are validated on every call against the verified exact corner enumeration",
